@@ -7,7 +7,7 @@ from harness import core, py2lean, instantiate
 from harness.core import Outcome, f2b, b2f
 
 ID = "C16"
-LEAN_TARGETS = ["BeyondVerif.Props.C16", "BeyondVerif.Props.C16Helpers", "BeyondVerif.Props.C16Seq", "BeyondVerif.Props.C16HelperSrc", "BeyondVerif.Witness.C16"]
+LEAN_TARGETS = ["BeyondVerif.Props.C16", "BeyondVerif.Props.C16Helpers", "BeyondVerif.Props.C16Seq", "BeyondVerif.Props.C16HelperSrc", "BeyondVerif.Props.C16Lin", "BeyondVerif.Witness.C16"]
 THEOREMS = [
     "BeyondVerif.C16.cw_zero",
     "BeyondVerif.C16.cw_solves_hill",
@@ -70,6 +70,9 @@ THEOREMS = [
     "BeyondVerif.C16.eccentric_boost_end_to_end_tnw",
     "BeyondVerif.C16.tangential_boost_end_to_end_tnw",
     "BeyondVerif.C16.vbar_linear_end_to_end_tnw",
+    "BeyondVerif.C16.relAcc_zero",
+    "BeyondVerif.C16.relAcc_linearisation",
+    "BeyondVerif.C16.hillRhs_position_block",
 ]
 LEVEL_TEXT = ("Lean theorems over R about the evolution and acceleration matrices translated from cw.py on every run: the propagated state has, "
               "component by component, the derivative prescribed by Hill's equations with constant thrust (HasDerivAt, all t, all n != 0), "
@@ -96,7 +99,9 @@ TRUSTED = [
 ASSUMPTIONS = ["maneuvers are given in the frame of the orbit (frame=None); QSW/TNW-tagged maneuvers belong to C17",
                "theorems are over R; the implementation computes in IEEE doubles",
                "maneuver vectors have three components (WF), states six"]
-NOT_COVERED = ["second-order agreement with the difference of two Keplerian orbits (asymptotic statement about the true dynamics): oracle only"]
+NOT_COVERED = ["second-order agreement with the difference of two Keplerian orbits: the theorem relAcc_linearisation shows that Hill's right-hand side is the directional derivative, in every "
+               "direction, of the exact relative two-body acceleration at the target (the target being an equilibrium, relAcc_zero); the Frechet form with an explicit O(sep^2) remainder and the passage "
+               "from the vector field to its solutions are not formalised - oracle second-order-agreement (real propagator vs RK4 integration of the exact relative dynamics, fitted exponent >= 1.8)"]
 OPEN = ["uniqueness of the piecewise solution of Hill's equations (so that hillSol is THE solution) is not formalised",
         "current code: state_solves_hill_piecewise_thrust holds only under NoCut / Clear (open findings C16-return-inside-burn-drops-later-maneuvers, C16-backward-ignores-past-maneuvers); "
         "the unconditional theorem is proved for the sequencing of proposed_fixes/C16-maneuver-superposition.diff (cwPropagateFixed)"]
@@ -105,7 +110,7 @@ RULE = ("correspondence: random (n from radii LEO..GEO, |t| <= 2 periods, relati
         "of burns, non-chronological, dated before the orbit), dates before / at / 1 ms beside / inside / after every maneuver and before the orbit's date, second leg from the returned "
         "orbit; hillSol and the fixed sequencing vs an independent matrix-exponential integration; CWHelper vs its translation; non-trivial = t != 0; distinct = distinct request line. "
         "oracle: finite-difference Hill residual, composition, impulse jump, TNW permutation, propagate vs the independent integration of Hill's equations with the piecewise-constant sum "
-        "of the active thrusts (one leg, second leg forwards and backwards, superposition), helper outcomes on the real API")
+        "of the active thrusts (one leg, second leg forwards and backwards, superposition), discrepancy with the exact relative two-body motion at three separations (exponent), helper outcomes on the real API")
 
 CW_PY = os.path.join(core.REPO, "beyond", "propagators", "cw.py")
 
@@ -609,6 +614,7 @@ def oracle(ctx, widened):
             out.fail("hill-residual-thrust", "state during a continuous maneuver violates the forced Hill equations",
                      {"sma": sma, "t": tq, "x": x, "man": ["c", ts, te, acc]}, observed=list(map(float, d)), expected=list(map(float, rhs)))
     piecewise(out, rng, 600 if (widened or ctx.thorough) else 90)
+    second_order(out, rng, 40 if (widened or ctx.thorough) else 6)
     helpers(out, rng, 60 if (widened or ctx.thorough) else 12)
     vbar(out, rng, 40 if (widened or ctx.thorough) else 8)
     out.sample({"checks": "hill residual (free, thrust), compose, tnw permutation, impulse jump, compose across impulse, CWHelper outcomes"})
@@ -865,6 +871,56 @@ def piecewise(out, rng, N):
             xm = [float(v) for v in mid]
             got = np.array(mid.propagate(timedelta(seconds=q(t2 - t1))))
             check_seq(out, "second-leg", ori, sma, xm, mans, t1, t2, got, n, kind)
+
+
+def exact_relative(n, R, s0, T, steps=1500):
+    """RK4 integration of the EXACT two-body relative dynamics in the target's rotating QSW frame (target on a circular orbit of radius R,
+    mu = n^2 R^3): acceleration = Coriolis (2 n vy, -2 n vx, 0) + relAcc (centrifugal - gravity) — the field whose linearisation at the
+    target is proved to be Hill's right-hand side in Props/C16Lin.lean (relAcc_linearisation)"""
+    import numpy as np
+    mu = n * n * R ** 3
+
+    def f(s):
+        x, y, z, vx, vy, vz = s
+        r3 = ((R + x) ** 2 + y * y + z * z) ** 1.5
+        return np.array([vx, vy, vz,
+                         2 * n * vy + n * n * (R + x) - mu * (R + x) / r3,
+                         -2 * n * vx + n * n * y - mu * y / r3,
+                         -mu * z / r3])
+    s = np.array(s0, dtype=float)
+    h = T / steps
+    for _ in range(steps):
+        k1 = f(s); k2 = f(s + h / 2 * k1); k3 = f(s + h / 2 * k2); k4 = f(s + h * k3)
+        s = s + h / 6 * (k1 + 2 * k2 + 2 * k3 + k4)
+    return s
+
+
+def second_order(out, rng, N):
+    """for small separations the Clohessy-Wiltshire state agrees with the true relative motion of two Keplerian orbits to second order in
+    the separation: halving the separation divides the discrepancy by ~4 (fitted exponent >= 1.8), and the discrepancy is O(sep^2 / R)"""
+    import numpy as np
+    from beyond.dates import timedelta
+    for _ in range(N):
+        sma = rng.choice([6.7e6, 7.2e6, 2.66e7, 4.2164e7])
+        prop = make("QSW", sma, [0] * 6)[1]
+        n = float(prop.n)
+        period = 2 * math.pi / n
+        T = q(rng.uniform(0.1, 0.5) * period)
+        u = np.array([rng.uniform(-1, 1) for _ in range(3)]); u /= np.linalg.norm(u)
+        w = np.array([rng.uniform(-1, 1) for _ in range(3)]); w /= np.linalg.norm(w)
+        seps = [sma * 3e-4, sma * 1.5e-4, sma * 0.75e-4]       # 2 km, 1 km, 0.5 km in LEO
+        errs = []
+        for d in seps:
+            x0 = list(d * u) + list(d * n * w)
+            cw = np.array(make("QSW", sma, x0)[0].propagate(timedelta(seconds=T)))
+            ex = exact_relative(n, sma, x0, T)
+            errs.append(float(np.linalg.norm(cw[:3] - ex[:3])))
+        expo = [math.log2(errs[i] / errs[i + 1]) if errs[i + 1] > 0 else 2.0 for i in range(2)]
+        out.count(key=("second-order", sma, T), kind="second-order-agreement")
+        if min(expo) < 1.8 or errs[0] > 300 * seps[0] ** 2 / sma:
+            out.fail("second-order-agreement", "discrepancy with the exact relative two-body motion does not shrink as separation squared",
+                     {"sma": sma, "T": T, "direction": list(map(float, u)), "velocity_direction": list(map(float, w)), "separations": seps},
+                     observed={"errors_m": errs, "exponents": expo}, expected={"exponents": ">= 1.8", "errors_m": f"<= {300 * seps[0] ** 2 / sma:.3g}"})
 
 
 def helpers(out, rng, N):
